@@ -233,6 +233,11 @@ def _misc_job(job):
             ("axis=(-1,)", lambda: is_multiple(a, b, axis=(-1,))),
             ("axis=(-2,-1)", lambda: is_multiple(a[:, None, :], b[:, None, :], axis=(-2, -1))),
             ("axis=(1,2)/3x1", lambda: is_multiple(a[:, :, None], b[:, :, None], axis=(1, 2))),
+            # the compared axes not trailing: the vector axis split into leading axes of a 3-D / 4-D array whose other extents differ
+            ("axis=(0,1)/leading", lambda: is_multiple(np.moveaxis(a, -1, 0)[:, None, :], np.moveaxis(b, -1, 0)[:, None, :], axis=(0, 1))),
+            ("axis=(0,2)/split", lambda: is_multiple(np.moveaxis(a, -1, 0)[:, :, None], np.moveaxis(b, -1, 0)[:, :, None], axis=(0, 2))),
+            ("axis=(0,1)/pairs", lambda: is_multiple(np.stack([np.moveaxis(a, -1, 0)] * 2, axis=1), np.stack([np.moveaxis(b, -1, 0)] * 2, axis=1), axis=(0, 1))),
+            ("axis=(2,0)/order", lambda: is_multiple(np.stack([np.moveaxis(a, -1, 0)] * 2, axis=2), np.stack([np.moveaxis(b, -1, 0)] * 2, axis=2), axis=(2, 0))),
             ("float-scaled", lambda: is_multiple(a * 0.37, b * -1.5, axis=-1)),
             ("complex-scaled", lambda: is_multiple(a * (1 + 2j), b * 1j, axis=-1)),
         ]
